@@ -230,11 +230,11 @@ theorem pair_RT (x : α) (y : β)
     RT (pairRead c a b unrawA unrawB rdA rdB) (pairWrite c a b rawA rawB encA encB) (x, y) := by
   intro r
   unfold pairRead pairWrite
-  rw [pairRawW_eq, pairRawR_eq]
-  cases hp : (a.isPod && b.isPod && c.noSwap)
+  rw [← pairRaw_WR]
+  cases hp : Gen.Ser.pairRawW a.isPod b.isPod c.noSwap a.size b.size (pairSize a b)
   · simp only [Bool.false_eq_true, if_false, pairFirstW_eq, pairFirstR_eq, if_true]
     exact seq_RT rdA rdB encA encB x y hA hB r
-  · obtain ⟨ha, hb, hua, hub, hal, hbl⟩ := hraw hp
+  · obtain ⟨ha, hb, hua, hub, hal, hbl⟩ := hraw (pairRaw_imp _ _ _ _ _ _ hp)
     simp only [if_true]
     have hl := pairBlock_length a b rawA rawB x y ha hb hal hbl
     have := readBytes_append
@@ -266,13 +266,12 @@ theorem pair_TR (x : α) (y : β)
   intro k hk
   unfold pairRead
   unfold pairWrite at hk ⊢
-  rw [pairRawW_eq] at hk ⊢
-  rw [pairRawR_eq]
-  cases hp : (a.isPod && b.isPod && c.noSwap)
+  rw [← pairRaw_WR]
+  cases hp : Gen.Ser.pairRawW a.isPod b.isPod c.noSwap a.size b.size (pairSize a b)
   · rw [hp] at hk
     simp only [Bool.false_eq_true, if_false, pairFirstW_eq, pairFirstR_eq, if_true] at hk ⊢
     exact seq_TR rdA rdB encA encB x y hA htA htB k hk
-  · obtain ⟨ha, hb, hal, hbl⟩ := hraw hp
+  · obtain ⟨ha, hb, hal, hbl⟩ := hraw (pairRaw_imp _ _ _ _ _ _ hp)
     rw [hp] at hk
     simp only [if_true] at hk ⊢
     have hl := pairBlock_length a b rawA rawB x y ha hb hal hbl
